@@ -5,6 +5,8 @@ CONSTANTS
   MaxM = 2
   MaxTotal = 4
   ZeroPairs = "split"
+  TB = 0
+  FB = 0
   WithTwins = FALSE
   ExportAt = "matrix"
 CONSTRAINT Export
